@@ -1,191 +1,83 @@
-import Std.Data.HashMap
 import Percival.Driver.Loop
-import Percival.Model.TimerQueue
-import Percival.Spec.PQ
-/-! `pmodel heap` / `pmodel tq`: line protocol for ptrheap.c and timerqueue.c (driver code). -/
+import Percival.Model.HeapStep
+/-! `pmodel heap`: line protocol for ptrheap.c and timerqueue.c.  Thin by construction: `parse` turns a
+line into a typed `HeapStep.XOp`, `Model.HeapStep.stepOp` (the function `Properties/C13.lean` speaks about:
+`hstep_refines`, `tstep_refines`, `run_ops_accepted`) does everything else, `render` prints its typed output. -/
 namespace Percival.Driver.Heap
-open Percival.Model Percival.Driver
+open Percival.Model Percival.Driver Percival.Spec.PQ Percival.Model.HeapStep
 
-structure St where
-  h : Heap.Heap := Heap.empty
-  keys : Std.HashMap Nat Int := {}
-  live : List Nat := []
-  q : TimerQueue.TQ := TimerQueue.empty
-  qlive : List Nat := []
+/-! ## text → typed op -/
 
-def keyFn (m : Std.HashMap Nat Int) (e : Nat) : Int := m.getD e 0
-
-def showLog (l : List (Nat × Nat)) : String :=
-  if l.isEmpty then "-" else ",".intercalate (l.reverse.map fun p => s!"{p.1}:{p.2}")
-
-def showArr (a : Array Nat) : String :=
-  if a.isEmpty then "-" else ",".intercalate (a.toList.map toString)
-
-def l2 (h : Heap.Heap) : String := s!"log={showLog h.log} a={showArr h.a}"
-
-def l2q (h : Heap.Heap) (pos : Std.HashMap Nat Nat) : String :=
-  let rcs := h.a.toList.map fun e => match pos.get? e with | some p => toString p | none => "?"
-  s!"log=* a={showArr h.a} rc={if rcs.isEmpty then "-" else ",".intercalate rcs}"
-
-def clearLog (h : Heap.Heap) : Heap.Heap := { h with log := [] }
-
-/-- the log is cleared per op for printing; positions are kept in `pos` for handle ops -/
-structure Pos where
-  m : Std.HashMap Nat Nat := {}
-
-def parsePairs (s : String) : List (Nat × Int) :=
-  if s = "-" then [] else
-  (s.splitOn ",").filterMap fun t =>
+def parsePairs (s : String) : Option (List (Nat × Int)) :=
+  if s = "-" then some [] else
+  (s.splitOn ",").mapM fun t =>
     match t.splitOn ":" with
-    | [a, b] => match a.toNat?, b.toInt? with
-      | some x, some y => some (x, y)
-      | _, _ => none
+    | [a, b] => do pure (← a.toNat?, ← b.toInt?)
     | _ => none
 
-/-- last reported positions survive log clearing: fold the op's log into a map -/
-def updPos (m : Std.HashMap Nat Nat) (log : List (Nat × Nat)) : Std.HashMap Nat Nat :=
-  log.reverse.foldl (fun m p => m.insert p.1 p.2) m
+/-- the time of the final drain of a timer-queue case: later than every time the generator uses -/
+def drainSec : Int := 2^40
+def drainUsec : Int := 999999
 
-structure Full where
-  s : St := {}
-  pos : Std.HashMap Nat Nat := {}
-  qpos : Std.HashMap Nat Nat := {}
+def parse : List String → Option XOp
+  | ["create", ps] => do pure (.h (.create (← parsePairs ps)))
+  | ["add", e, k] => do pure (.h (.add (← e.toNat?) (← k.toInt?)))
+  | ["getmin"] => some (.h .getmin)
+  | ["delmin"] => some (.h .delmin)
+  | ["del", e] => do pure (.h (.del (← e.toNat?)))
+  | ["inc", e, k] => do pure (.h (.inc (← e.toNat?) (← k.toInt?)))
+  | ["dec", e, k] => do pure (.h (.dec (← e.toNat?) (← k.toInt?)))
+  | ["incmin", k] => do pure (.h (.incmin (← k.toInt?)))
+  | ["drain"] => some (.h .drain)
+  | ["t_add", r, sec, usec, ptr] => do pure (.t (.op (.add (← r.toNat?) (← sec.toInt?) (← usec.toInt?) (← ptr.toNat?))))
+  | ["t_del", r] => do pure (.t (.op (.del (← r.toNat?))))
+  | ["t_inc", r, sec, usec] => do pure (.t (.op (.inc (← r.toNat?) (← sec.toInt?) (← usec.toInt?))))
+  | ["t_min"] => some (.t (.op .getmin))
+  | ["t_get", sec, usec] => do pure (.t (.op (.get (← sec.toInt?) (← usec.toInt?))))
+  | ["t_drain"] => some (.t (.drain drainSec drainUsec))
+  | _ => none
 
-def finishH (f : Full) (h : Heap.Heap) (keys : Std.HashMap Nat Int) (live : List Nat) (l1 : String) : Full × String :=
-  ({ f with s := { f.s with h := clearLog h, keys, live }, pos := updPos f.pos h.log }, s!"{l1} | {l2 h}")
+/-! ## typed output → text -/
 
-def step (f : Full) (toks : List String) : Full × String :=
-  let s := f.s
-  match toks with
-  | ["create", ps] =>
-      let pairs := parsePairs ps
-      let keys := pairs.foldl (fun m p => m.insert p.1 p.2) s.keys
-      let h := Heap.create (keyFn keys) (pairs.map (·.1))
-      finishH { f with pos := {} } h keys (pairs.map (·.1)) "ok"
-  | ["add", e, k] =>
-      match e.toNat?, k.toInt? with
-      | some e, some k =>
-        if s.live.contains e then (f, "skip") else
-        let keys := s.keys.insert e k
-        finishH f (Heap.add (keyFn keys) s.h e) keys (e :: s.live) "ok"
-      | _, _ => (f, "bad-op")
-  | ["getmin"] =>
-      let id := match Heap.getmin s.h with | some e => toString e | none => "none"
-      (f, s!"min {id}")
-  | ["delmin"] =>
-      match Heap.getmin s.h, Heap.deletemin (keyFn s.keys) s.h with
-      | some e, some h => finishH f h s.keys (s.live.erase e) s!"ok {e}"
-      | _, _ => (f, "skip")
-  | ["del", e] =>
-      match e.toNat? with
-      | some e =>
-        if !s.live.contains e then (f, "skip") else
-        match f.pos.get? e with
-        | some rc => match Heap.delete (keyFn s.keys) s.h rc with
-          | some h => finishH f h s.keys (s.live.erase e) "ok"
-          | none => (f, "precondition")
-        | none => (f, "precondition")
-      | none => (f, "bad-op")
-  | ["inc", e, k] | ["dec", e, k] =>
-      match e.toNat?, k.toInt? with
-      | some e, some k =>
-        if !s.live.contains e then (f, "skip") else
-        let old := keyFn s.keys e
-        let isInc := toks.head! = "inc"
-        if (isInc && k < old) || (!isInc && k > old) then (f, "skip") else
-        let keys := s.keys.insert e k
-        match f.pos.get? e with
-        | some rc =>
-          let r := if isInc then Heap.increase (keyFn keys) s.h rc else Heap.decrease (keyFn keys) s.h rc
-          match r with
-          | some h => finishH f h keys s.live "ok"
-          | none => (f, "precondition")
-        | none => (f, "precondition")
-      | _, _ => (f, "bad-op")
-  | ["incmin", k] =>
-      match k.toInt?, Heap.getmin s.h with
-      | some k, some e =>
-        if k < keyFn s.keys e then (f, "skip") else
-        let keys := s.keys.insert e k
-        finishH f (Heap.increasemin (keyFn keys) s.h) keys s.live s!"ok {e}"
-      | _, _ => (f, "skip")
-  | ["drain"] =>
-      let rec drain (fuel : Nat) (h : Heap.Heap) (acc : List Nat) : List Nat :=
-        match fuel with
-        | 0 => acc.reverse
-        | fuel+1 => match Heap.getmin h, Heap.deletemin (keyFn s.keys) h with
-          | some e, some h' => drain fuel { h' with log := [] } (e :: acc)
-          | _, _ => acc.reverse
-      let ids := drain s.h.a.size s.h []
-      ({ f with s := { s with h := Heap.empty, live := [] }, pos := {} },
-       "drain " ++ (if ids.isEmpty then "-" else ",".intercalate (ids.map toString)))
-  -- timer queue
-  | ["t_add", r, sec, usec, ptr] =>
-      match r.toNat?, sec.toInt?, usec.toInt?, ptr.toNat? with
-      | some r, some sec, some usec, some ptr =>
-        if s.qlive.contains r then (f, "skip") else
-        let q := TimerQueue.add s.q r sec usec ptr
-        let qpos := updPos f.qpos q.h.log
-        ({ f with s := { s with q := { q with h := clearLog q.h }, qlive := r :: s.qlive }, qpos },
-          s!"ok | {l2q q.h qpos}")
-      | _, _, _, _ => (f, "bad-op")
-  | ["t_del", r] =>
-      match r.toNat? with
-      | some r =>
-        if !s.qlive.contains r then (f, "skip") else
-        -- the record's rc is the last notification, possibly from an earlier op
-        match f.qpos.get? r with
-        | none => (f, "precondition")
-        | some rc =>
-          match Heap.delete (TimerQueue.key s.q.recs) s.q.h rc with
-          | some h =>
-            let qpos := updPos f.qpos h.log
-            ({ f with s := { s with q := { s.q with h := clearLog h }, qlive := s.qlive.erase r }, qpos },
-              s!"ok | {l2q h qpos}")
-          | none => (f, "precondition")
-      | none => (f, "bad-op")
-  | ["t_inc", r, sec, usec] =>
-      match r.toNat?, sec.toInt?, usec.toInt? with
-      | some r, some sec, some usec =>
-        if !s.qlive.contains r then (f, "skip") else
-        match TimerQueue.lookup s.q.recs r, f.qpos.get? r with
-        | some old, some rc =>
-          if TimerQueue.tvKey sec usec < TimerQueue.tvKey old.sec old.usec then (f, "skip") else
-          let recs := (r, { old with sec, usec }) :: s.q.recs
-          match Heap.increase (TimerQueue.key recs) s.q.h rc with
-          | some h =>
-            let qpos := updPos f.qpos h.log
-            ({ f with s := { s with q := { h := clearLog h, recs } }, qpos }, s!"ok | {l2q h qpos}")
-          | none => (f, "precondition")
-        | _, _ => (f, "precondition")
-      | _, _, _ => (f, "bad-op")
-  | ["t_min"] =>
-      match TimerQueue.getmin s.q with
-      | some (sec, usec) => (f, s!"tmin {sec} {usec}")
-      | none => (f, "tmin none")
-  | ["t_get", sec, usec] =>
-      match sec.toInt?, usec.toInt? with
-      | some sec, some usec =>
-        let (q, res) := TimerQueue.getptr s.q sec usec
-        match res with
-        | some (r, ptr) =>
-          let qpos := updPos f.qpos q.h.log
-          ({ f with s := { s with q := { q with h := clearLog q.h }, qlive := s.qlive.erase r }, qpos },
-            s!"rel {ptr} | r={r} {l2q q.h qpos}")
-        | none => (f, "rel none")
-      | _, _ => (f, "bad-op")
-  | ["t_drain"] =>
-      let rec tdrain (fuel : Nat) (q : TimerQueue.TQ) (acc : List Nat) : List Nat :=
-        match fuel with
-        | 0 => acc.reverse
-        | fuel+1 => match TimerQueue.getptr q (2^40) 999999 with
-          | (q', some (_, ptr)) => tdrain fuel { q' with h := { q'.h with log := [] } } (ptr :: acc)
-          | (_, none) => acc.reverse
-      let ptrs := tdrain s.q.h.a.size s.q []
-      ({ f with s := { s with q := TimerQueue.empty, qlive := [] }, qpos := {} },
-       "tdrain " ++ (if ptrs.isEmpty then "-" else ",".intercalate (ptrs.map toString)))
-  | _ => (f, "bad-op")
+def commaOr (l : List String) : String := if l.isEmpty then "-" else ",".intercalate l
 
-def main (_args : List String) : IO UInt32 := loop ({} : Full) step
+def showLog (l : List (Nat × Nat)) : String := commaOr (l.reverse.map fun p => s!"{p.1}:{p.2}")
+def showArr (a : Array Nat) : String := commaOr (a.toList.map toString)
+def showOptNat : Option Nat → String | some e => toString e | none => "none"
+
+def showAns : Ans → String
+  | .ok => "ok"
+  | .okId e => s!"ok {e}"
+  | .min r => s!"min {showOptNat r}"
+  | .skip => "skip"
+  | .precondition => "precondition"
+  | .drained ids => "drain " ++ commaOr (ids.map toString)
+
+def showTAns : TAns → String
+  | .ok => "ok"
+  | .skip => "skip"
+  | .precondition => "precondition"
+  | .tmin (some (sec, usec)) => s!"tmin {sec} {usec}"
+  | .tmin none => "tmin none"
+  | .rel (some (_, p)) => s!"rel {p}"
+  | .rel none => "rel none"
+
+def showTL2 (x : TL2) : String :=
+  s!"log=* a={showArr x.a} rc={commaOr (x.rc.map fun | some p => toString p | none => "?")}"
+
+def render : XOut → String
+  | .h { ans, l2 := none } => showAns ans
+  | .h { ans, l2 := some x } => s!"{showAns ans} | log={showLog x.notes} a={showArr x.a}"
+  | .t { ans := .drained ps, .. } => "tdrain " ++ commaOr (ps.map toString)
+  | .t { ans := .ans a, l2 := none } => showTAns a
+  | .t { ans := .ans (.rel (some (r, p))), l2 := some x } => s!"rel {p} | r={r} {showTL2 x}"
+  | .t { ans := .ans a, l2 := some x } => s!"{showTAns a} | {showTL2 x}"
+
+def step (s : St) (toks : List String) : St × String :=
+  match parse toks with
+  | some op => let r := stepOp s op; (r.1, render r.2)
+  | none => (s, "bad-op")
+
+def main (_args : List String) : IO UInt32 := loop ({} : St) step
 
 end Percival.Driver.Heap
